@@ -89,6 +89,7 @@ pub struct World {
     /// live Gc blocks: block base -> (uid, id, size, align)
     pub blocks: HashMap<usize, (u32, u32, usize, usize)>,
     pub lines: Vec<String>,
+    pub stream: bool,
     /// allocator-level faults observed (double free, layout mismatch, ...): property oracle hits
     pub alarms: Vec<String>,
     pub steps: usize,
@@ -140,6 +141,7 @@ impl World {
             next_uid: 0,
             blocks: HashMap::new(),
             lines: Vec::new(),
+            stream: false,
             alarms: Vec::new(),
             steps: 0,
             pending: Vec::new(),
@@ -251,11 +253,33 @@ impl World {
         self.pending.extend(out);
     }
 
+    /// streamed runs name every operation BEFORE executing it, so that an operation that kills the process
+    /// (memory corruption in the crate under test) is known to the parent
+    fn announce(&self, op: &Op) {
+        if self.stream {
+            use std::io::Write;
+            let so = std::io::stdout();
+            let mut l = so.lock();
+            let _ = writeln!(l, "#next {}", op.text());
+            let _ = l.flush();
+        }
+    }
+
     fn emit(&mut self, op: Op, out: &[i64], cur: Option<(u8, &Snapshot)>) -> Vec<Option<Snapshot>> {
         let ev = self.drain_events();
         let (ar, snaps) = self.render_arenas(cur);
         let outs = out.iter().map(|x| x.to_string()).collect::<Vec<_>>().join(" ");
-        self.lines.push(format!("{} | {} | {} | {} | ", op.text(), outs, ev, ar));
+        let line = format!("{} | {} | {} | {} | ", op.text(), outs, ev, ar);
+        if self.stream {
+            // streamed and flushed line by line: if the crate under test corrupts memory and the process dies,
+            // everything up to the fatal operation is still available to the oracles
+            use std::io::Write;
+            let so = std::io::stdout();
+            let mut l = so.lock();
+            let _ = writeln!(l, "{line}");
+            let _ = l.flush();
+        }
+        self.lines.push(line);
         self.steps += 1;
         snaps
     }
@@ -300,7 +324,7 @@ impl World {
         loop {
             let op = {
                 let v = self.view(None, [None; NREGS], [None; NREGS], &snaps);
-                match src.next(&v) { Some(o) => o, None => break }
+                match src.next(&v) { Some(o) => { self.announce(&o); o }, None => break }
             };
             alloc_track::set_recording(true);
             snaps = self.exec_top(op, src);
@@ -526,7 +550,9 @@ impl World {
                     loop {
                         let o = {
                             let v = self.view(Some((a, k, false)), [None; NREGS], [None; NREGS], &snaps);
-                            src.next(&v)
+                            let o = src.next(&v);
+                            if let Some(o) = &o { self.announce(o); }
+                            o
                         };
                         match o {
                             None | Some(Op::End) | Some(Op::EndErr) | Some(Op::Panic) => {
@@ -577,7 +603,9 @@ impl World {
             let op = {
                 let (r, w) = self.reg_view(ai, &cb);
                 let v = self.view(Some((a, kind, true)), r, w, &snaps);
-                src.next(&v)
+                let o = src.next(&v);
+                if let Some(o) = &o { self.announce(o); }
+                o
             };
             match op {
                 None | Some(Op::End) => return (Term::End, cb.regs, cb.wregs),
